@@ -19,7 +19,10 @@ class C14(Prop):
     harness_sub = "c14"
     sizes = {"quick": 150, "thorough": 3000}
     gen_names = ("g_sql_", "g_event_type", "handler/sqlite/")
-    rule = ("55% fault cases: 0..2 earlier batches, then a batch of 1..5 events (same generator as C06: all classes, "
+    rule = ("one case in 40 is a big-batch fault case: a batch of 101..135 distinct events of all classes (after at most "
+            "one small earlier batch) with the fault injected at a sample of nine driver-call indices (begin, a "
+            "prepare, the first exec, the middle, two positions in the last quarter, the last two execs, commit) and "
+            "two fixed filter lists.  Of the others, 55% fault cases: 0..2 earlier batches, then a batch of 1..5 events (same generator as C06: all classes, "
             "replacements, deletion requests, duplicates) run through the real insertEvents over a fault-injecting "
             "database/sql driver failing the k-th driver call for EVERY k of the batch (begin, 5 prepares, each exec, "
             "commit); after each failure, after the retry, after a clean run and after inserting the batch twice a fixed "
@@ -44,6 +47,14 @@ class C14(Prop):
         if c.get("panic"):
             return "CBroken"
         qs = clist(c["qs"], lambda fs: cfilters(I, fs), "(list rfilter)")
+        if c["k"] == "bigfault":
+            return "(CFaultAt %s %s %s %s %s %s %s %s %s %s)" % (
+                clist(c.get("pre") or [], lambda b: ievents(I, b), "(list event)"),
+                ievents(I, c.get("b") or []), cZ(c["ncalls"]), qs,
+                cqlist(I, c.get("before")), clist(c.get("ks") or [], cZ, "Z"),
+                clist(c.get("fault") or [], lambda l: cqlist(I, l), "(list qres)"),
+                clist(c.get("retry") or [], lambda l: cqlist(I, l), "(list qres)"),
+                cqlist(I, c.get("clean")), cqlist(I, c.get("twice")))
         if c["k"] == "fault":
             return "(CFault %s %s %s %s %s %s %s %s %s)" % (
                 clist(c.get("pre") or [], lambda b: ievents(I, b), "(list event)"),
@@ -58,15 +69,15 @@ class C14(Prop):
         return "(CReopen %s %s %s)" % (qs, clist(c.get("seeds") or [], cZ, "Z"), steps)
 
     def _inputs(self, c):
-        if c["k"] == "fault":
-            return {"k": "fault", "qs": c["qs"], "pre": c.get("pre") or [], "b": c.get("b") or []}
+        if c["k"] in ("fault", "bigfault"):
+            return {"k": c["k"], "qs": c["qs"], "pre": c.get("pre") or [], "b": c.get("b") or []}
         return {"k": "reopen", "qs": c["qs"],
                 "steps": [{"re": st["re"], "b": st["b"]} for st in c.get("steps") or []]}
 
     def nontrivial_key(self, c):
         def ids(q):
             return sorted(e["id"] for e in q.get("out") or [])
-        if c["k"] == "fault":
+        if c["k"] in ("fault", "bigfault"):
             if c.get("before") and c.get("clean") and [ids(q) for q in c["before"]] != [ids(q) for q in c["clean"]]:
                 return json.dumps(self._inputs(c), sort_keys=True)
             return None
@@ -79,23 +90,25 @@ class C14(Prop):
         return None
 
     def summarize(self, c):
-        if c["k"] == "fault":
-            return {"k": "fault", "pre": [len(b) for b in c.get("pre") or []], "batch": len(c.get("b") or []),
-                    "driver_calls": c.get("ncalls")}
+        if c["k"] in ("fault", "bigfault"):
+            return {"k": c["k"], "pre": [len(b) for b in c.get("pre") or []], "batch": len(c.get("b") or []),
+                    "driver_calls": c.get("ncalls"), "fault_positions": c.get("ks") or "all"}
         return {"k": "reopen", "steps": [(st["re"], len(st["b"])) for st in c.get("steps") or []],
                 "seeds": c.get("seeds")}
 
     def distribution(self, cases):
-        d = {"fault_cases": 0, "fault_positions": 0, "reopen_cases": 0, "reopens": 0, "batches": 0, "events": 0,
+        d = {"fault_cases": 0, "big_batch_fault_cases": 0, "fault_positions": 0, "reopen_cases": 0, "reopens": 0, "batches": 0, "events": 0,
              "queries_answered": 0, "harness_failures": 0}
         for c in cases:
             d["harness_failures"] += bool(c.get("panic"))
-            if c["k"] == "fault":
+            if c["k"] in ("fault", "bigfault"):
+                npos = len(c.get("ks") or []) if c["k"] == "bigfault" else (c.get("ncalls") or 0)
                 d["fault_cases"] += 1
-                d["fault_positions"] += c.get("ncalls") or 0
+                d["big_batch_fault_cases"] += c["k"] == "bigfault"
+                d["fault_positions"] += npos
                 d["batches"] += 1 + len(c.get("pre") or [])
                 d["events"] += len(c.get("b") or []) + sum(len(b) for b in c.get("pre") or [])
-                d["queries_answered"] += len(c["qs"]) * (3 + 2 * (c.get("ncalls") or 0))
+                d["queries_answered"] += len(c["qs"]) * (3 + 2 * npos)
             else:
                 d["reopen_cases"] += 1
                 for st in c.get("steps") or []:
@@ -110,7 +123,7 @@ class C14(Prop):
         for qs in drop_one(c["qs"]):
             if qs:
                 yield dict(copy.deepcopy(c), qs=qs)
-        if c["k"] == "fault":
+        if c["k"] in ("fault", "bigfault"):
             for pre in drop_one(c["pre"]):
                 yield dict(copy.deepcopy(c), pre=pre)
             for i, b in enumerate(c["pre"]):
@@ -118,8 +131,21 @@ class C14(Prop):
                     c2 = copy.deepcopy(c)
                     c2["pre"][i] = b2
                     yield c2
-            for b in drop_one(c["b"]):
-                yield dict(copy.deepcopy(c), b=b)
+            n = len(c["b"])
+            if n > 24:
+                # a big batch: drop runs of events (every candidate costs a dozen fresh databases)
+                for parts in (2, 4, 8, 16):
+                    w = max(1, n // parts)
+                    for lo in range(0, n, w):
+                        yield dict(copy.deepcopy(c), b=c["b"][:lo] + c["b"][lo + w:])
+                if c["k"] == "bigfault" and n <= 40:
+                    # the same batch with every fault position
+                    yield dict(copy.deepcopy(c), k="fault")
+            else:
+                if c["k"] == "bigfault":
+                    yield dict(copy.deepcopy(c), k="fault")
+                for b in drop_one(c["b"]):
+                    yield dict(copy.deepcopy(c), b=b)
         else:
             for steps in drop_one(c["steps"]):
                 yield dict(copy.deepcopy(c), steps=steps)
